@@ -408,7 +408,15 @@ class DiscriminatedUnionUnpackerBuilder(AbstractUnpackerBuilder):
                 )
             with lines.indent("try:"):
                 if spec.builder.is_nailed:
-                    lines.append(f"return {chosen_cls}.{variant_method_call}")
+                    lines.append(f"variant = {chosen_cls}")
+                    # a method inherited from a parent class would
+                    # unpack the parent's fields
+                    with lines.indent(
+                        f"if {variant_method_name!r} "
+                        "not in variant.__dict__:"
+                    ):
+                        lines.append("raise AttributeError")
+                    lines.append(f"return variant.{variant_method_call}")
                 else:
                     lines.append(
                         f"return {spec.attrs_registry_name}"
